@@ -204,6 +204,7 @@ type schedEngine struct {
 	midArm        int32 // >0: park at the n-th visit of a stage by the root pipeline's scheduling loops
 	nstages       int
 	stageReleased map[string]bool
+	hasConds      bool // some stage of the world has a condition (a real fork)
 }
 
 func (e *schedEngine) index(g *GraphSpec, parent *StageSpec) {
@@ -463,7 +464,10 @@ func (e *schedEngine) settle() {
 				c.Release(runs[k], Action{Kind: "go"})
 				c.Quiesce()
 			}
-			if e.prof.PreemptPct > 0 && stmtPoints > 0 && c.Ch.Bool(1, 2, "midpass-statement") {
+			if e.prof.PreemptPct > 0 && stmtPoints > 0 && !e.hasConds && c.Ch.Bool(1, 2, "midpass-statement") {
+				// (not in worlds with stage conditions: those are real forks, during which the
+				// runtime - not the seed - decides what the other goroutines get done, so that the
+				// number of passes before this visit is not a function of the seed)
 				// ... and the pass may be stopped again a few statements into this visit (between
 				// looking at the dependencies and acting on what was seen)
 				vsync.ArmStmt(1+c.Ch.Choose(30, "midpass-stmt-depth"), vp[0].GID)
@@ -547,6 +551,11 @@ func RunSchedWorld(c *Ctl, prof *SchedProfile, g *GraphSpec, res *RunResult) {
 		stageReleased: map[string]bool{},
 	}
 	e.index(g, nil)
+	for _, sp := range e.byName {
+		if sp.Cond != "" {
+			e.hasConds = true
+		}
+	}
 	e.nstages = g.CountStages()
 	e.model = EvalDag(g, false)
 	e.modelAlt = EvalDag(g, true)
